@@ -20,16 +20,34 @@ Definition C11_full : Prop :=
 Theorem C11_refuted : ~ C11_full.
 Proof. exact full_refuted. Qed.
 
-(** The three recorded classes.  (1) an inner line that does not plan: the loop never ends. *)
-Theorem C11_refuted_hang : forall W head cmd tail,
+(** Repaired (85ca576), now a theorem: an inner line that does not plan gives the empty
+    replacement after exactly one consultation of the runner, with fuel 2 -- never a hang. *)
+Theorem C11_unplannable : forall W head cmd tail f,
   word_ok head cmd tail -> run_capture W cmd = None ->
-  forall f log, dollar_loop f W (head ++ [36; 40] ++ cmd ++ [41] ++ tail) log = OutOfFuel.
-Proof. exact hang_general. Qed.
-(** (2) the output is a replacement template: a$1b becomes a. *)
+  dollar_loop (S (S f)) W (head ++ [36; 40] ++ cmd ++ [41] ++ tail) [] = Ok (Some (head ++ tail), [cmd]).
+Proof. exact unplannable_empty. Qed.
+
+(** Termination for EVERY word (any number of substitutions, any nesting, inner lines that plan or
+    not): if no output of the runner carries a dollar after trimming, the loop ends within
+    (number of dollars in the word) + 1 iterations. *)
+Theorem C11_terminates : forall W,
+  (forall c o, run_capture W c = Some o -> ~ In 36 (trim o)) ->
+  forall line log, exists r, dollar_loop (S (count_occ N.eq_dec line 36)) W line log = Ok r.
+Proof. exact dollar_loop_terminates. Qed.
+
+(** The embedded backquote spelling, one substitution: head, trimmed output, tail; one call. *)
+Theorem C11_backquote : forall W h c t item output log f,
+  ~ In 96 h -> ~ In 96 c -> c <> [] -> ~ In 96 t -> ~ In 10 t ->
+  dot_loop (S (S f)) W (h ++ 96 :: c ++ 96 :: t) item output log
+  = Ok (item ++ h ++ (match run_capture W c with Some o => trim o | None => output end) ++ t, log ++ [c]).
+Proof. exact dot_loop_one. Qed.
+
+(** The two recorded classes of the dollar spelling. *)
+(** (1) the output is a replacement template: a$1b becomes a. *)
 Theorem C11_refuted_template : forall f, (2 <= f)%nat ->
   dollar_loop f W_tpl [36; 40; 120; 41] [] = Ok (Some [97], [[120]]).
 Proof. exact template_witness. Qed.
-(** (3) all surrounding white space is trimmed, not only trailing newlines. *)
+(** (2) all surrounding white space is trimmed, not only trailing newlines. *)
 Theorem C11_refuted_whitespace : forall f, (2 <= f)%nat ->
   dollar_loop f W_ws [112; 36; 40; 120; 41; 113] [] = Ok (Some [112; 118; 113], [[120]])
   /\ strip_nl [32; 118; 32; 10] = [32; 118; 32].
@@ -40,7 +58,7 @@ Proof. exact whitespace_witness. Qed.
     (the log is [cmd]), with fuel 2, for every world. *)
 Definition Known_C11 (W : World) (cmd : str) : Prop :=
   match run_capture W cmd with
-  | None => True
+  | None => False
   | Some out => In 36 (trim out) \/ trim out <> strip_nl out
   end.
 Theorem C11_partial : forall W head cmd tail out f,
@@ -66,7 +84,9 @@ Example C11_nonvacuous :
 Proof. split; [exact word_ok_x | vm_compute; reflexivity]. Qed.
 
 Print Assumptions C11_refuted.
-Print Assumptions C11_refuted_hang.
+Print Assumptions C11_unplannable.
+Print Assumptions C11_terminates.
+Print Assumptions C11_backquote.
 Print Assumptions C11_refuted_template.
 Print Assumptions C11_refuted_whitespace.
 Print Assumptions C11_partial.
